@@ -370,15 +370,15 @@ def bfs(n, limit, depth, cap_states, slow=False):
 
 
 def run(tier, seed, t0):
-    depth = 5 if tier == "quick" else 7
-    cap = 6000 if tier == "quick" else 60000
+    depth = 5 if tier == "quick" else 9
+    cap = 6000 if tier == "quick" else 400000
     parts = []
-    configs = [(2, 1), (2, 2), (2, None), (3, 2)] if tier == "quick" else [(2, 1), (2, 2), (2, None), (3, 1), (3, 2), (3, None)]
+    configs = [(2, 1), (2, 2), (2, None), (3, 2)] if tier == "quick" else [(2, 1), (2, 2), (2, None), (3, 1), (3, 2), (3, 3), (3, None)]
     for n, limit in configs:
         parts.append(bfs(n, limit, depth if n == 2 else depth - 1, cap))
     # the same automaton behind a suspending user manager (canonical schedule; the races below vary the schedule)
     parts.append(bfs(2, 1, depth - 1, cap, slow=True))
-    bound = 1 if tier == "quick" else 2
+    bound = 1 if tier == "quick" else 3
     kinds = ["early", "order", "batch"]
     parts += report.pmap(_race_work, [(c, bound, kinds) for c in RACES])
     part = report.merge_all(parts)
